@@ -1,11 +1,11 @@
 CONSTANTS
   NDocs = 3
-  ImpChoices <- Imp4
+  ImpChoices <- Imp4b
   DiskChoices <- AllDisks
-  MinMsgs = 6
-  MaxMsgs = 6
-  MaxPending = 2
-  MaxOutbox = 2
+  MinMsgs = 5
+  MaxMsgs = 5
+  MaxPending = 1
+  MaxOutbox = 1
   MaxChanges = 2
   ViewDepth = 2
   Deviations <- NoDev
